@@ -29,6 +29,7 @@ func init() {
 	gens["c06.result"] = genC06Result
 	gens["c06.dnsbasic"] = genC06DNS
 	gens["c06.engine"] = genC06Engine
+	gens["c06.pairs"] = genC06Pairs
 }
 
 // c06Pool returns rule texts over pattern pat; source selects the referrer
@@ -226,15 +227,6 @@ func genC06Result(r *rng, n int, w *bufio.Writer) {
 	c06EmitWeb(w, b, gu, "direct", nil, false)
 	c06EmitWeb(w, b, []*rules.NetworkRule{gu[1], gu[0]}, "direct", nil, false)
 	c06EmitWeb(w, nil, nil, "direct", nil, false)
-	// all pairs (rule, source rule) and all singletons of the pools: exhaustive small sizes
-	if n >= 20000 {
-		for _, t := range pool {
-			c06EmitWeb(w, c06Parse([]string{t}), nil, "direct", nil, false)
-			for _, s := range spool {
-				c06EmitWeb(w, c06Parse([]string{t}), c06Parse([]string{s}), "direct", nil, false)
-			}
-		}
-	}
 	for i := 0; i < n; i++ {
 		rs := c06Parse(c06Multiset(r, pool, 6))
 		src := c06Parse(c06Multiset(r, spool, 3))
@@ -259,14 +251,6 @@ func genC06Result(r *rng, n int, w *bufio.Writer) {
 func genC06DNS(r *rng, n int, w *bufio.Writer) {
 	pool := c06Pool("||e.org^", false)
 	c06EmitDNS(w, nil, "direct", nil, false)
-	if n >= 20000 {
-		for _, t := range pool {
-			c06EmitDNS(w, c06Parse([]string{t}), "direct", nil, false)
-			for _, s := range pool {
-				c06EmitDNS(w, c06Parse([]string{t, s}), "direct", nil, false)
-			}
-		}
-	}
 	for i := 0; i < n; i++ {
 		rs := c06Parse(c06Multiset(r, pool, 6))
 		perms := 1 + r.n(3)
@@ -390,6 +374,38 @@ func genC06Engine(r *rng, n int, w *bufio.Writer) {
 				}
 			}
 			fmt.Fprintf(w, "assert c06.dnsengineperm %s = %s ## DNSEngine classes of %d permutations/splits %v: [%s]\n", wstrs(ts), wbool(ok), perms, classes, strings.Join(ts, "  ;  "))
+		}
+	}
+}
+
+// genC06Pairs: all singletons and all pairs -- (rule, source rule) for web,
+// (rule, rule) for DNS -- of the pools (seed-independent).  With n below the
+// number of pairs, n pairs are sampled.
+func genC06Pairs(r *rng, n int, w *bufio.Writer) {
+	pool := c06Pool("||e.org^", false)
+	spool := c06Pool("||site.com^", false)
+	type pr struct{ a, b int }
+	var pairs []pr
+	for i := range pool {
+		for j := range spool {
+			pairs = append(pairs, pr{i, j})
+		}
+	}
+	all := n >= len(pairs)
+	if !all {
+		shuffle(r, pairs)
+		pairs = pairs[:n]
+	}
+	if all {
+		for _, t := range pool {
+			c06EmitWeb(w, c06Parse([]string{t}), nil, "direct", nil, false)
+			c06EmitDNS(w, c06Parse([]string{t}), "direct", nil, false)
+		}
+	}
+	for _, p := range pairs {
+		c06EmitWeb(w, c06Parse([]string{pool[p.a]}), c06Parse([]string{spool[p.b]}), "direct", nil, false)
+		if p.b < len(pool) {
+			c06EmitDNS(w, c06Parse([]string{pool[p.a], pool[p.b]}), "direct", nil, false)
 		}
 	}
 }
